@@ -141,7 +141,32 @@ int run(const Args& a, Recorder& rec) {
             }
         }
     }
-    rec.bound = "expression graph: M=2 depth " + std::string(a.thorough() ? "3" : "2") + ", M=3 depth " + (a.thorough() ? "2" : "1") + "; all monomials up to length 6 (M=2) / " + (a.thorough() ? "5" : "4") + " (M=3); N, Sz for M<=4";
+    // wide index spaces: the same algebra on 64 single-particle modes (no matrices: the action on Fock states is compared with a
+    // bit-mask Jordan-Wigner reference) -- all monomials of length <= 3 over the modes {0,1,30,31,32,33,62,63} x all occupations of
+    // those modes, on an empty and on a completely filled background (word boundaries of the bit arithmetic at 31/32 and 63)
+    {
+        const int W = 8, NB = 64; int modes[W] = { 0, 1, 30, 31, 32, 33, 62, 63 }; int maxlen = a.thorough() ? 4 : 3, ng = 2 * W; unsigned long allw = 0; for (int k = 0; k < W; ++k) allw |= 1ul << modes[k];
+        for (int len = 1; len <= maxlen; ++len) { long cnt = 1; for (int k = 0; k < len; ++k) cnt *= ng;
+            for (long t = 0; t < cnt; ++t) {
+                if (!mine()) continue;
+                long tt = t; Operator op; std::string expr; std::vector<std::pair<bool,int> > seq;
+                for (int k = 0; k < len; ++k) { int g = tt % ng; tt /= ng; bool cr = g >= W; int i = modes[g % W]; Operator f = cr ? OperatorPresets::c_dag(i) : OperatorPresets::c(i); if (k == 0) op = f; else op = op * f; seq.push_back(std::make_pair(cr, i)); expr += std::string(k ? "*" : "") + (cr ? "c+" : "c") + std::to_string(i); }
+                std::string kase = "64 modes, monomial " + expr; if (!a.want(kase)) continue;
+                marker("C05 " + kase); rec.states++; rec.enum_transitions++; if (len >= 3) rec.nontrivial++;
+                bool bad = false;
+                for (int bg = 0; bg < 2 && !bad; ++bg) for (unsigned long occ = 0; occ < (1ul << W) && !bad; ++occ) {
+                    unsigned long ket = bg ? ~allw : 0ul; for (int k = 0; k < W; ++k) if ((occ >> k) & 1) ket |= 1ul << modes[k];
+                    // reference: factors act right to left; c / c+ on mode i give the sign (-1)^(number of occupied modes below i)
+                    unsigned long x = ket; int sign = 1; bool zero = false;
+                    for (int k = len - 1; k >= 0 && !zero; --k) { int i = seq[k].second; bool occd = (x >> i) & 1; if (seq[k].first == occd) { zero = true; break; } unsigned long below = (i == 0) ? 0ul : (x & ((i >= 64) ? ~0ul : ((1ul << i) - 1))); if (__builtin_popcountl(below) & 1) sign = -sign; x ^= 1ul << i; }
+                    rec.evaluations++;
+                    std::map<FockState, MelemType> r = op.actRight(FockState(NB, ket)); cd got = 0; bool other = false;
+                    for (auto& kv : r) { if (std::abs(cd(kv.second)) < 1e-14) continue; if (!zero && kv.first.to_ulong() == x) got += cd(kv.second); else other = true; }
+                    if (other || std::abs(got - (zero ? cd(0) : cd(sign))) > 1e-13) { char kb[32]; snprintf(kb, sizeof kb, "%016lx", ket); rec.violation("C05:wide:len" + std::to_string(len), "the action of a product of elementary operators on a Fock state of 64 modes differs from the Jordan-Wigner action", kase + " on |" + kb + ">"); bad = true; }
+                }
+            } }
+    }
+    rec.bound = "expression graph: M=2 depth " + std::string(a.thorough() ? "3" : "2") + ", M=3 depth " + (a.thorough() ? "2" : "1") + "; 64-mode monomials up to length " + (a.thorough() ? "4" : "3") + " over 8 boundary modes x 512 kets; all monomials up to length 6 (M=2) / " + (a.thorough() ? "5" : "4") + " (M=3); N, Sz for M<=4";
     return 0;
 }
 } // namespace
